@@ -536,6 +536,10 @@ Definition hl_enc (s0 : hst) (ops : list hop) : list Z :=
       ++ [Z.of_nat (length pos)] ++ concat (map pos_enc (rev pos)) ++ concat (map hev_enc (rev (hlog s)))
   end.
 
+(* a velocity setpoint capped at vmax (what a clamping _set_vel_setpoint would stream); only used to show that the
+   duration distance / velocity belongs to the UNclamped velocity *)
+Definition qclamp (vmax v : Q) : Q := if Qltb vmax v then vmax else v.
+
 (* ================================================================== the link between send_packet and the air (round 5) *)
 (* The real drivers put the packet OBJECT into an out queue in send_packet and read its header and data later, in their
    own thread.  Objects are cells of a store; `LSend c v` = the sender writes payload v into cell c and hands the
